@@ -60,6 +60,7 @@ pub fn run(ctx: &mut Ctx, suite: &str) {
         "c01n" => c04::run_c01n(ctx),
         "c04e" => c04::run_c04e(ctx),
         "c04p" => c04::run_c04p(ctx),
+        "c10s" => c04::run_c10s(ctx),
         "c08s" => c12::run_stall(ctx),
         "c19" => c19::run(ctx),
         "c20" => c20::run(ctx),
